@@ -28,7 +28,7 @@ RULE = ("case = strategy (6 + FunctionRFA with suppliers returning float / 0-d a
 REQUIRED_MONITORS = ["rfa_post", "c04:reject"]
 ASSUMPTIONS = ["x strictly increasing and finite, y finite, strategy parameters in the documented ranges"]
 NSHARDS = 16
-SUPPLIERS = ["float", "zero_d", "npscalar", "pchip", "const", "reduce", "branching"]
+SUPPLIERS = ["float", "zero_d", "npscalar", "pchip", "const", "reduce", "branching", "poly1d_deg0", "poly1d_deg2", "falsy_object"]
 
 
 def plan(tier, seed):
@@ -44,6 +44,16 @@ def supplier(kind):
         if kind == "const":
             c = float(np.mean(y))
             return lambda t: c
+        # sampling functions that are OBJECTS: the degree-0 member of a polynomial sweep (numpy.poly1d has a length,
+        # 0 for a constant, so it is falsy), a quadratic fit, and a callable whose truth value is False
+        if kind == "poly1d_deg0":
+            return np.poly1d([float(np.mean(y))])
+        if kind == "poly1d_deg2":
+            xa = np.asarray(x, dtype=float)
+            return np.poly1d(np.polyfit((xa - xa[0]) / max(float(xa[-1] - xa[0]), 1e-300), np.asarray(y, dtype=float), min(2, len(xa) - 1))) \
+                if len(xa) >= 2 else np.poly1d([float(np.mean(y))])
+        if kind == "falsy_object":
+            return _Falsy(float(np.mean(y)))
         if kind == "reduce":
             xa, ya = np.asarray(x, dtype=float), np.asarray(y, dtype=float)
             return lambda t: float(np.mean(ya[np.clip(np.searchsorted(xa, t), 0, len(ya) - 1)]))
@@ -58,6 +68,19 @@ def supplier(kind):
             return lambda t: np.float64(cs(t))
         return lambda t: cs(t)
     return make
+
+
+class _Falsy:
+    """a sampling function object with an empty-container truth value (e.g. a fitted model with no free terms)"""
+
+    def __init__(self, c):
+        self.c = c
+
+    def __call__(self, t):
+        return self.c + 0.0 * t
+
+    def __bool__(self):
+        return False
 
 
 class _Factory:
